@@ -572,6 +572,14 @@ func directed(rng *rand.Rand, q string) []core.Case {
 		ops := []string{fmt.Sprintf("create seed=%x q=%s", seed, q)}
 		out = append(out, core.Case{Ops: append(ops, lines...), Tags: []string{"directed." + tag}})
 	}
+	// a custom scope, then the first accounts in it: account numbers continue after the default account (the
+	// `lastaccount` row written by NewScopedKeyManager), indices of account 0 survive, also across a restart
+	for _, cs := range []string{"1001:1", "1017:0"} {
+		mk("custom-scope-first-accounts", "unlock p=0", "newscope s="+cs+" ext=4 int=4", "next s="+cs+" a=0 n=2 int=0 h=1",
+			"newacct s="+cs+" name=2", "newxpub s="+cs+" name=3 x=1 ci=2147483649 fp=7 schema=-", "next s="+cs+" a=1 n=1 int=0 h=3",
+			"next s="+cs+" a=2 n=1 int=1 h=4", "next s="+cs+" a=0 n=1 int=0 h=5", "props s="+cs+" a=0", "restart", "props s="+cs+" a=0",
+			"props s="+cs+" a=1", "next s="+cs+" a=0 n=1 int=0 h=6", "unlock p=0", "lookup s="+cs+" ref=c:0:0:2 h=7", "privkey h=7")
+	}
 	for _, sc := range []string{"84:0", "44:0", "49:0", "86:0"} {
 		// addresses of two accounts created while locked, in both orders, then unlocked (derive-on-unlock)
 		mk("derive-on-unlock-two-accounts", "unlock p=0", "newacct s="+sc+" name=2", "newacct s="+sc+" name=3", "lock",
